@@ -6,6 +6,8 @@
                                                     `_find_comp` (cache threaded): per query `from/to/isdst,utcoff,dst,tzname` (components named by their offsets)
                                                     (µs), then the final cache `us:fold,…|from/to/isdst,…`
                                                     (datetimes are µs since ordinal 0, as the onsets × 10^6)
+    tzgen.local.wall <std> <dst> <hasdst> <table> [us…] <stdabbr hex> <dstabbr hex>   the translated tzlocal methods:
+                                                    amb;naive,isdst,off,dst,name;naive,isdst,off,dst,name (fold 0 ; fold 1)
     tzgen.str.init <posix> <hex>                    Gen.tzstr_init, printed like tz.zone
     tzgen.str.trans <posix> <hex> <year>            Gen.tzrange_transitions on it
     tzgen.str.delta <std> <dst> <isend> <month> <week> <weekday> <yday> <jyday> <day> <time>   Gen.tzstr_delta
@@ -14,6 +16,7 @@
 -/
 import DateutilVerif.Ops.ICal
 import DateutilVerif.Ops.TzStr
+import DateutilVerif.Ops.TzGen
 import DateutilVerif.Generated.TzObjKernels
 
 namespace Ops.TzObjGen
@@ -78,8 +81,21 @@ def rangeInit? (a : List String) : Option (Py.R TzStr.Zone) :=
     some (match r with | .ok t => .ok (zoneOf t) | .error e => .error e)
   | _ => none
 
+def localWall (z : TZ.RangeZone) (us : Int) : String :=
+  let f (fold : Bool) : String :=
+    let d : DtPy.Dt := { us, fold, attached := false }
+    s!"{Ops.Zones.showRInt (Gen.tzlocal_naiveIsDst z d)},{Ops.Zones.showRInt (Gen.tzlocal_isdst z d true)}," ++
+    s!"{Ops.Zones.showRInt (Gen.tzlocal_utcoffset z d)},{Ops.Zones.showRInt (Gen.tzlocal_dst z d)}," ++
+    s!"{Ops.TzGen.showRStr (Gen.tzlocal_tzname z d)}"
+  s!"{Ops.Zones.showRBool (Gen.tzlocal_isAmbiguous z { us, fold := false, attached := false })};{f false};{f true}"
+
 def handle (op : String) (args : List String) : Option String :=
   match op, args with
+  | "tzgen.local.wall", [s, d, h, tbl, xs, sa, da] => do
+      let (z, ws) ← Ops.Zones.rangeOf [s, d, h, tbl, xs]
+      let sa ← parseHexBytes? sa; let da ← parseHexBytes? da
+      let z := { z with stdAbbr := sa, dstAbbr := da }
+      pure ("ok " ++ " ".intercalate (ws.map (localWall z)))
   | "tzgen.ical.offset", [h] => do
       let s ← parseHexString? h
       some (Py.showR showInt (Gen.tzical_parseOffset s.toList))
